@@ -18,4 +18,4 @@ Deliverables, written to /tmp/seed-out/{low}/ (create it):
  1. patch.diff  — `git -C /tmp/seed-{low} diff` of your change (source files only, no test files).
  2. demo_test.go (or demo/main.go) — a demonstration that FAILS with the change and PASSES without it: preferably a Go test file you can drop into an existing package of the worktree (say which package directory and how to run it), using the project's own test helpers; it must show the property violation concretely (observed vs required).
  3. notes.md — which behaviour is broken, exactly what is needed for it to manifest, which existing test packages you ran (commands + result) with the change applied, and how to run the demo.
-Verify yourself: demo fails with the patch, passes after `git -C /tmp/seed-{low} stash` (then `stash pop`); existing tests of the touched packages pass with the patch. When done, leave the worktree in place with the patch applied and report the paths plus a 5-line summary. If an existing test fails because of your change, pick a different change.""")
+Verify yourself: demo fails with the patch, passes without it (NEVER use `git stash` - the stash is shared by all worktrees of /repo and other agents work concurrently; instead `git -C /tmp/seed-{low} diff > /tmp/seed-out/{low}/patch.diff; git -C /tmp/seed-{low} apply -R /tmp/seed-out/{low}/patch.diff; <run demo>; git -C /tmp/seed-{low} apply /tmp/seed-out/{low}/patch.diff`); existing tests of the touched packages pass with the patch. When done, leave the worktree in place with the patch applied and report the paths plus a 5-line summary. If an existing test fails because of your change, pick a different change.""")
